@@ -284,7 +284,7 @@ theorem openFile_wb {fs fs' : Fs} {p : Path} {c : Bytes} {pos : Nat} (h : openFi
     cases hl : lookup fs p with
     | none =>
       rw [hl] at h
-      simp only at h
+      simp only [true_or, if_true] at h
       split at h
       · rename_i hd
         injection h with h
